@@ -119,6 +119,30 @@ def _ops_case(case):
                     bad("C14/norm", f"norm: channel {tgt} is not the pixel norm of block {kp} entry {idx} (lead={lead})")
                     break
             offc += c
+    # ---- norm with very unequal entries: one entry (first index of the first leading axis) is 1e25 times larger in
+    #      float32, resp. 1e3 times larger in a float16 multi-image; every OTHER entry's norm must still be what the
+    #      single-image norm of that image gives (same dtype, same arithmetic) — no entry may set the scale for another
+    if lead >= 1:
+        for dt, big, rt in ((np.float32, 1e25, 1e-6), (np.float16, 512.0, 2e-3)):
+            scaled = {}
+            for kp in blocks:
+                b = (blocks[kp] / 16.0).astype(dt)
+                b[0] = (b[0].astype(np.float64) * big).astype(dt)
+                scaled[kp] = b
+            ms = geom.MultiImage({kp: jnp.asarray(scaled[kp]) for kp, _ in sig}, D, flags)
+            r = np.asarray(ms.norm()[(0, 0)]).astype(np.float64)
+            offc = 0
+            for kp, c in sig:
+                for idx in it.product(*[range(n) for n in lead_shapes[kp]]):
+                    if idx[0] == 0:
+                        continue
+                    evals += 1
+                    exp = np.asarray(geom.GeometricImage(jnp.asarray(scaled[kp][idx]), kp[1], D, flags).norm().data).astype(np.float64)
+                    tgt = idx[:-1] + (offc + idx[-1],)
+                    if not np.allclose(r[tgt], exp, rtol=rt, atol=rt * 1e-2):
+                        bad(f"C14/norm/unequal-entries/{np.dtype(dt).name}", f"norm: channel {tgt} (block {kp} entry {idx}) changes when ANOTHER entry is {big:g} times larger ({np.dtype(dt).name}): max deviation {float(np.max(np.abs(r[tgt] - exp))):.3g}")
+                        break
+                offc += c
     # ---- average pooling
     if D >= 2:
         r = m.average_pool(2)
